@@ -41,8 +41,8 @@ void Signal::set()
   VERIFY(pthread_mutex_lock((pthread_mutex_t*)mdata) == 0);
   signaled = true;
   ++setCount;
+  VERIFY(pthread_cond_broadcast((pthread_cond_t*)cdata) == 0); // before the unlock: a released waiter may destroy the signal at once
   VERIFY(pthread_mutex_unlock((pthread_mutex_t*)mdata) == 0);
-  VERIFY(pthread_cond_broadcast((pthread_cond_t*)cdata) == 0);
 #endif
 }
 
